@@ -146,8 +146,15 @@ def params(tier):
 def run(tier):
     res = Result(PID)
     st = explore.explore(Stop("line"), params(tier), 2)
+    ix = None
+    if tier != "quick":
+        sel = [dict(p, bound=2.015) for p in params(tier) if p["mode"] == "outside" and p["pending"] <= 1 and p["sources"] <= 1][:4]
+        ix = explore.extra(st, explore.hybrid(Stop("instr")), sel, 2.015, 1200,
+                           "stop() from outside with <= 1 pending event and <= 1 source at instruction granularity (at most one deviation inside a line)")
     fill(res, st, 2, "line", "; stop() from another thread / from a handler x 0-2 pending events x 0-2 timed sources, "
          "a second active object and the fabric as bystanders")
+    if ix:
+        res.coverage["instruction_extra"] = ix
     res.assumptions = ["'after stop() returns' = scheduler step index of the return vs step index of later actions"]
     return res
 
